@@ -7,13 +7,13 @@ From Coq Require Import List Arith NArith Bool.
 From Muscle Require Import Pulse.PulseModel Pulse.PulseInv Pulse.PulseOps Pulse.PulseSweep.
 Import ListNotations.
 
-Definition rr_gt : nat -> nat -> N -> N -> N * list cop :=
-  fun x k _ _ => match x, k with
+Definition rr_gt : nmap -> nat -> nat -> N -> N -> N * list cop :=
+  fun _ x k _ _ => match x, k with
                  | 1, 0 => (NEVER, [CInval 1 true])      (* first call: "never", and invalidates itself *)
                  | 1, _ => (5%N, [])                      (* every later call would ask for time 5 *)
                  | _, _ => (NEVER, [])
                  end.
-Definition rr_pl : nat -> nat -> N -> N -> list cop := fun _ _ _ _ => [].
+Definition rr_pl : nmap -> nat -> nat -> N -> N -> list cop := fun _ _ _ _ _ => [].
 Definition rr_ops : list top :=
   [TNew 0; TNew 1; TOp (CAttach 0 1); TCycle 0 0%N; TOp (CInval 1 true); TCycle 0 10%N; TCycle 0 10%N].
 
